@@ -369,7 +369,13 @@ func (r *Rng) NameAddr(lws bool, allowStar bool) *NAExp {
 			}
 			used[sp] = true
 			name = r.ReCase(sp)
+			if sp != "lr" && !strings.HasPrefix(sp, "x") && r.P(12) {
+				// a special parameter without value: nothing to report for it
+				hasVal = false
+				sp = "novalue"
+			}
 			switch sp {
+			case "novalue":
 			case "tag":
 				val = r.Token(1, 12)
 				e.Tag, e.HasTag = val, true
@@ -494,6 +500,9 @@ func (r *Rng) genValue(t int, lws bool, method string, ms *MsgSpec) string {
 	case 5:
 		return "SIP/2.0/UDP " + r.Host() + r.Pick("", ":5060") + ";branch=" + r.Pick("z9hG4bK", "") + r.Token(4, 16) + r.Pick("", ";rport", ";received=1.2.3.4")
 	case 6:
+		if r.P(8) {
+			return "" // empty value
+		}
 		return fmt.Sprint(r.N(100))
 	case 8, 11, 12, 13:
 		n := 1 + r.N(3)
@@ -511,11 +520,18 @@ func (r *Rng) genValue(t int, lws bool, method string, ms *MsgSpec) string {
 		}
 		return strings.Join(vs, sep)
 	case 9:
+		if r.P(25) {
+			// legal but large (between the Content-Length limit and 2^32)
+			return r.Pick("31536000", "86400000", "16777217", "4294967295", "999999999", "1000000000", "2147483648")
+		}
 		if r.P(85) || sane {
 			return fmt.Sprint(r.N(100000))
 		}
 		return r.Digits()
 	case 10:
+		if r.P(12) {
+			return "" // empty value
+		}
 		return r.Alnum(1, 8) + r.Pick("", " "+r.Alnum(1, 5), "/1.0 (x; y)")
 	default:
 		n := r.N(4)
